@@ -337,6 +337,7 @@ func checkC19(c *ctx) {
 	c.Assumptions = append(c.Assumptions, "stand-in engine (see C14): its operations fail exactly where the injection says")
 	o := genVecOpts(c)
 	o.sim["vec"], o.sim["emb"] = "l2_norm", "dot_product"
+	optFor := "recall"
 	mkBatch := func(nd, perDoc, fields int, id string) zh.Batch {
 		var b zh.Batch
 		for d := 0; d < nd; d++ {
@@ -347,7 +348,7 @@ func checkC19(c *ctx) {
 				for j := 0; j < perDoc; j++ {
 					data = append(data, randVec(c, o.dims[name])...)
 				}
-				doc.Fields = append(doc.Fields, zh.Field{Name: name, Typ: 'v', Vec: &zh.VecDef{Dims: o.dims[name], Sim: o.sim[name], Opt: "recall", Data: data}})
+				doc.Fields = append(doc.Fields, zh.Field{Name: name, Typ: 'v', Vec: &zh.VecDef{Dims: o.dims[name], Sim: o.sim[name], Opt: optFor, Data: data}})
 			}
 			b = append(b, doc)
 		}
@@ -386,10 +387,15 @@ func checkC19(c *ctx) {
 		{name: "merge with an input whose own index is clustered (>= 1000 vectors in one input)", inputs: []zh.Batch{mkBatch(520, 2, 1, "r"), mkBatch(3, 1, 1, "s")}, drops: [][]uint64{{5}, nil}, ivf: true, fields: sx.L(sx.L(sx.N(2), sx.Bool(true)))},
 		{name: "merge reaching >= 1000 vectors (clustered index)", inputs: []zh.Batch{mkBatch(300, 2, 1, "i"), mkBatch(260, 2, 1, "j")}, drops: [][]uint64{nil, nil}, ivf: true, fields: sx.L(sx.L(sx.N(2), sx.Bool(true)))},
 	}
-	if c.Quick {
-		// keep the quick tier short: the large scenarios are strided below
-	}
+	optFor = "memory-efficient"
+	scens = append(scens,
+		scen{name: "merge of three segments, field optimized for memory efficiency", inputs: []zh.Batch{mkBatch(3, 1, 1, "ma"), mkBatch(4, 2, 1, "mb"), mkBatch(2, 1, 1, "mc")}, drops: [][]uint64{nil, {2}, nil}, fields: sx.L(sx.L(sx.N(3), sx.Bool(false)))},
+		scen{name: "merge with a clustered memory-efficient input", inputs: []zh.Batch{mkBatch(510, 2, 1, "md"), mkBatch(3, 1, 1, "me")}, drops: [][]uint64{{7}, nil}, ivf: true, fields: sx.L(sx.L(sx.N(2), sx.Bool(true)))})
+	optFor = "recall"
+	scens = append(scens,
+		scen{name: "merge of a clustered input without deletions and two fully deleted small segments (a single clustered contributor)", inputs: []zh.Batch{mkBatch(2, 1, 1, "ua"), mkBatch(520, 2, 1, "ub"), mkBatch(2, 1, 1, "uc")}, drops: [][]uint64{{0, 1}, nil, {0, 1}}, ivf: true, fields: sx.L(sx.L(sx.N(1), sx.Bool(true)))})
 	ops := []string{"IndexFactory", "SetDirectMap", "Train", "AddWithIDs", "WriteIndexIntoBuffer", "ReadIndexFromBuffer", "ReconstructBatch"}
+	firstDiffers := ""
 	for _, sc := range scens {
 		var segs []segment.Segment
 		var bitmaps []*roaring.Bitmap
@@ -502,32 +508,44 @@ func checkC19(c *ctx) {
 					gotCalls = append(gotCalls, uint64(callsAfter[o2]))
 				}
 				faiss.Mu.Unlock()
+				// `bad`: the property itself fails on this fault; `differs`: the code no longer runs the
+				// engine-call program of the model (VecFault.v) - the enumeration goes on looking for a
+				// fault on which the property fails, and the difference is reported if there is none
+				differs := ""
 				switch {
 				case !reached:
-					bad = fmt.Sprintf("the %d-th call of %s was not reached although the fault-free run makes %d calls (non-deterministic engine-call program)", n, op, counts[op])
+					differs = fmt.Sprintf("the %d-th call of %s was not reached although the fault-free run makes %d calls (non-deterministic engine-call program)", n, op, counts[op])
 				case err == nil:
-					// the property itself, whatever the model of the call program says: the engine
-					// reported a failure (the injected call was reached) and the operation succeeded
+					// whatever the model of the call program says: the engine reported a failure (the
+					// injected call was reached) and the operation succeeded
 					bad = fmt.Sprintf("the engine reported a failure in call #%d of %s but the operation returned no error", n, op)
-				case a.L[3].N != 1:
-					bad = "model: the engine-call program does not close every index exactly once (model defect)"
-				case (err != nil) != wantErr:
-					bad = fmt.Sprintf("the operation returned error=%v; the model of the engine-call program says error=%v", err, wantErr)
-				case !sx.Equal(sx.Nums(gotCalls), a.L[1]):
-					bad = fmt.Sprintf("engine calls made before returning %v = %v, the model of the engine-call program says %s", ops, gotCalls, a.L[1].Pretty())
 				case err != nil && path != "" && exists(path):
 					bad = "the merge returned an error but left a file at the path"
+				case a.L[3].N != 1:
+					differs = "model: the engine-call program does not close every index exactly once (model defect)"
+				case (err != nil) != wantErr:
+					differs = fmt.Sprintf("the operation returned error=%v; the model of the engine-call program says error=%v", err, wantErr)
+				case !sx.Equal(sx.Nums(gotCalls), a.L[1]):
+					differs = fmt.Sprintf("engine calls made before returning %v = %v, the model of the engine-call program says %s", ops, gotCalls, a.L[1].Pretty())
 				}
 				if path != "" {
 					os.Remove(path)
 				}
-				if bad == "" {
+				if bad == "" && reached {
 					if live := waitLive(baseLive); live != baseLive {
 						bad = fmt.Sprintf("%d native indexes are still open after the failed operation returned", live-baseLive)
+						// later scenarios count from the new level
+						baseLive = live
 					}
 					if _, dbl, uac := engineCounters(); dbl != baseDbl || uac != baseUac {
 						bad = fmt.Sprintf("%d double closes / %d uses after close during the failed operation", dbl-baseDbl, uac-baseUac)
 					}
+				}
+				if bad == "" && differs != "" {
+					if firstDiffers == "" {
+						firstDiffers = fmt.Sprintf("C19 scenario %q with the %d-th call of %s failing (fault-free run: %v)\n%s", sc.name, n, op, counts, differs)
+					}
+					continue
 				}
 				if bad != "" {
 					if kf := c.Known.Match("C19", "build-error-swallowed"); kf != nil && sc.build != nil && err == nil {
@@ -542,5 +560,8 @@ func checkC19(c *ctx) {
 		for _, s := range segs {
 			s.(*zap.SegmentBase).Close()
 		}
+	}
+	if firstDiffers != "" {
+		c.Violation(firstDiffers+"\n(the correspondence between the code and the model of its engine-call program is broken; no fault was found on which the operation hides the failure, leaves a file or leaks an index)", true)
 	}
 }
